@@ -24,7 +24,9 @@ METHODS = ['_register_response', '_send', '_wait', '_check_poll', '_check_ack_na
 
 EXN = {'KeyError': 'KeyError', 'ValueError': 'ValueError', 'struct.error': 'StructError', 'AssertionError': 'AssertionError',
        'IndexError': 'IndexError', 'TypeError': 'TypeError', 'AttributeError': 'AttributeError',
-       'UnicodeError': 'UnicodeError', 'UnicodeDecodeError': 'UnicodeError'}
+       'UnicodeError': 'UnicodeError', 'UnicodeDecodeError': 'UnicodeError',
+       # json.loads: JSONDecodeError is a ValueError; RecursionError (absurd nesting) is lumped with it in PySem.py_json_loads
+       'json.decoder.JSONDecodeError': 'ValueError', 'json.JSONDecodeError': 'ValueError', 'RecursionError': 'ValueError'}
 
 # effectful calls that leave server_base.py: python callee -> (coq primitive, number of arguments, needs backend)
 SELF_PRIMS = {
@@ -272,6 +274,8 @@ class Fn:
                     err(e, '`is` only against None')
                 t = f'(py_is_none {self.ex(a)})'
                 return t if isinstance(op, ast.Is) else f'(negb {t})'
+            if isinstance(op, ast.In):
+                return f'(py_in {self.ex(a)} {self.ex(b)})'
             A, Bv = self.ex(a), self.ex(b)
             if isinstance(op, ast.Eq):
                 return f'(py_eq {A} {Bv})'
@@ -288,7 +292,7 @@ class Fn:
             err(e, f'comparison {type(op).__name__} not supported')
         if isinstance(e, ast.Call) and dotted(e.func) == 'isinstance' and len(e.args) == 2:
             k = dotted(e.args[1])
-            table = {'UbxFrame': 'py_is_frame', 'UbxCID': 'py_is_cid', 'list': 'py_is_list'}
+            table = {'UbxFrame': 'py_is_frame', 'UbxCID': 'py_is_cid', 'list': 'py_is_list', 'dict': 'py_is_dict'}
             if k in table:
                 return f'({table[k]} {self.ex(e.args[0])})'
             err(e, f'isinstance(_, {k}) not supported')
@@ -618,13 +622,15 @@ class ObjFn(Fn):
         # as Fn._collect, but augmented assignment to a local is allowed
         forbidden = (ast.AnnAssign, ast.NamedExpr, ast.With, ast.Global, ast.Nonlocal, ast.Lambda, ast.FunctionDef, ast.ClassDef,
                      ast.ListComp, ast.GeneratorExp, ast.DictComp, ast.SetComp, ast.Delete, ast.Import, ast.ImportFrom, ast.Yield,
-                     ast.YieldFrom, ast.Await, ast.Starred, ast.AsyncFor, ast.AsyncWith, ast.AsyncFunctionDef, ast.While, ast.For)
+                     ast.YieldFrom, ast.Await, ast.Starred, ast.AsyncFor, ast.AsyncWith, ast.AsyncFunctionDef, ast.While)
 
         def walk(node):
             if isinstance(node, ast.stmt) and is_noop(node):
                 return
             if isinstance(node, forbidden):
                 err(node, f'{self.name}: {type(node).__name__} not supported')
+            if isinstance(node, ast.For) and isinstance(node.target, ast.Name) and node.target.id not in self.locals:
+                self.locals.append(node.target.id)
             if isinstance(node, ast.Assign):
                 for t in node.targets:
                     if isinstance(t, ast.Name) and t.id not in self.locals:
@@ -635,11 +641,23 @@ class ObjFn(Fn):
             walk(st)
 
     def call(self, c):
+        if isinstance(c, ast.Subscript) and not isinstance(c.slice, ast.Slice) \
+                and not (isinstance(c.slice, ast.Constant) and isinstance(c.slice.value, int)):
+            return f'(res_call (py_getitem {self.ex(c.value)} {self.ex(c.slice)}) w)'
         if not isinstance(c, ast.Call):
             return None
+        # data.decode().splitlines()
+        if isinstance(c.func, ast.Attribute) and c.func.attr == 'splitlines' and not c.args and isinstance(c.func.value, ast.Call) \
+                and isinstance(c.func.value.func, ast.Attribute) and c.func.value.func.attr == 'decode' and not c.func.value.args:
+            return f'(res_call (py_decode_lines {self.ex(c.func.value.func.value)}) w)'
         f = dotted(c.func)
         if f is None or c.keywords:
             return None
+        if f == 'json.loads' and len(c.args) == 1:
+            import json as _json
+            if getattr(self.mod, 'json', None) is not _json:
+                err(c, 'json is not the standard module')
+            return f'(res_call (py_json_loads {self.ex(c.args[0])}) w)'
         if f in OBJ_PRIMS:
             prim, n = OBJ_PRIMS[f]
             root = f.split('.')[0]
@@ -718,6 +736,19 @@ class ObjFn(Fn):
             return f'(s_seq {first}\n (s_assign {self.setter(v)} (fun l w => py_add ({self.fld(v)} l) ({self.fld("aug__tmp")} l))))'
         if isinstance(st, ast.Expr) and isinstance(st.value, ast.Call) and self.is_method_call(st.value):
             return f'(s_call_assign2 (fun l _ => l) {self.setter("self")} {self.lam(self.call(st.value))})'
+        if isinstance(st, ast.For):
+            if st.orelse or not isinstance(st.target, ast.Name):
+                err(st, 'for loop form not supported')
+            v = st.target.id
+            call = self.call(st.iter)
+            before = set(self.defined)
+            self.defined.add(v)
+            body = self.block(st.body)
+            self.defined = before
+            if call is None:
+                return f'(s_for_list {self.lam(self.ex(st.iter))} {self.setter(v)} {body})'
+            return (f'(s_seq (s_call_assign {self.setter("aug__tmp")} {self.lam(call)})\n'
+                    f' (s_for_list (fun l w => {self.fld("aug__tmp")} l) {self.setter(v)} {body}))')
         return super().stmt(st)
 
     def emit(self):
@@ -784,6 +815,37 @@ def emit_items_v(path):
         L += f.record()
     L.append('Definition g_item_fmts : list (string * string) := [' + '; '.join(
         f'({coq_str(n)}%string, {coq_str(getattr(mod, n).fmt)}%string)' for n in ('U1', 'U2', 'U4', 'I1', 'I2', 'I4', 'X1', 'X2', 'X4')) + '].')
+    L += ['', 'Section G.', 'Context {E : Type} (B : backend E) (sk : list N).', 'Notation fres := (@fres E).', '']
+    for f in fns:
+        L.append(f.emit())
+        L.append('')
+    L.append('End G.')
+    text = '\n'.join(L) + '\n'
+    with open(path, 'w') as fh:
+        fh.write(text)
+    return text
+
+
+GPSD_METHODS = ['_parse_version', '_parse_devices', '_parse_gpsd_msg']
+
+
+def emit_gpsd_v(path):
+    """GnssUBlox._parse_gpsd_msg / _parse_version / _parse_devices (ubxlib/server.py) -> gen/GpsdKernels.v"""
+    import ubxlib.server as mod
+    cls = mod.GnssUBlox
+    known = {}
+    fns = []
+    for m in GPSD_METHODS:
+        f = ObjFn(mod, cls, m, dict(known), prefix='gg_')
+        f.short = 'g' + f.short
+        fns.append(f)
+        known[m] = f
+    L = ['(* GENERATED on every run by py/vlib/translate_req.py from ubxlib/server.py in /repo. Do not edit. *)',
+         'From Coq Require Import String.',
+         'From Ubx Require Import Fields Base Checksum Frame ParserUbx ParserNmea CfgKeys Request Gpsd PySem.',
+         'Open Scope N_scope.', '']
+    for f in fns:
+        L += f.record()
     L += ['', 'Section G.', 'Context {E : Type} (B : backend E) (sk : list N).', 'Notation fres := (@fres E).', '']
     for f in fns:
         L.append(f.emit())
